@@ -22,6 +22,7 @@ import traceback
 import subprocess
 import collections
 import multiprocessing as mp
+from mc.adapt import HarnessBinding
 
 VERIF = os.path.dirname(os.path.dirname(os.path.abspath(__file__)))
 REPO = os.environ.get('PGPY_REPO', '/repo')
@@ -117,6 +118,12 @@ def _run_unit(unit):
         r.states = 1
         r.outcomes['harness-exception'] += 1
         r.viol(check, {'kind': 'harness-exception'}, case, traceback.format_exc()[-1500:])
+    except HarnessBinding as e:
+        # a private PGPy name the harness relies on has gone: a problem of the harness, never a verdict about the property
+        r = Res()
+        r.states = 1
+        r.outcomes['harness-exception'] += 1
+        r.viol(check, {'kind': 'harness-exception'}, case, 'HarnessBinding: %s' % (e,))
     finally:
         signal.alarm(0)
     d = r.pack()
@@ -162,6 +169,8 @@ def replay_file(pid, path):
     try:
         r = prop.run_case(rec.get('unit', rec['check']), rec['case'])
         out = r.violations
+    except HarnessBinding as e:
+        out = [{'check': rec['check'], 'tags': {'kind': 'harness-exception'}, 'case': rec['case'], 'detail': 'HarnessBinding: %s' % (e,)}]
     except CaseTimeout:
         out = [{'check': rec['check'], 'tags': {'kind': 'timeout'}, 'case': rec['case'], 'detail': 'timeout'}]
     finally:
@@ -256,6 +265,9 @@ def run_property(pid, tier, seed, jobs=None, max_report=40):
                       f, indent=1, default=str)
         if v['tags'].get('kind') == 'harness-exception':
             nondet.append((path, 'harness exception: ' + v['detail'][-300:]))
+        elif v['tags'].get('kind') == 'timeout':
+            # the properties say nothing about running time: a case that exceeds the watchdog is a problem of the harness (or of the machine), not a verdict
+            nondet.append((path, 'case exceeded the watchdog: ' + v['detail'][-200:]))
         else:
             pending.append((path, check, v))
             unknown_lines.append(None)
